@@ -427,7 +427,7 @@ func oracleC04(s *Scenario, x *vrt.Exec, o *Obs) []vrt.Violation {
 				}
 			case "enabling":
 				get(e.Step).enablingSeen = true
-				if v, ok := in["enabled"]; ok && v != true {
+				if v, ok := in["enabled"]; ok && v != nil && !refTruth(v) {
 					get(e.Step).enabledFalse = true
 				}
 			}
